@@ -153,6 +153,8 @@ var atoms = map[string]string{
 	"ip4-port+": "127.0.0.1-9618+", "-port&noUDP": "-9618&noUDP", "bday": strconv.Itoa(bday),
 	"c442": "442", "c443": "443", "c444": "444", "c60010": "60010",
 	"c0": "0", "c1": "1", "c2147483647": "2147483647",
+	"ip4:port?alias": "127.0.0.1:9618?alias", "ip4-port%23id7&noUDP": "127.0.0.1-9618%23id7&noUDP",
+	"ip4:port?note": "127.0.0.1:9618?note",
 }
 
 var cmdInts = map[string]int{"c442": 442, "c443": 443, "c444": 444, "c60010": 60010,
@@ -395,12 +397,18 @@ func Run(sc *Scenario, v Variant, st *Stats) *Diff {
 	}
 	claim := m.ClaimID()
 	// the secret: the 64 lower-case hex characters MintClaimSession appended
-	if len(claim) < 64 {
-		return &Diff{"Mint", "secret", "claim id shorter than a secret"}
+	secret := ""
+	if len(claim) >= 64 {
+		secret = claim[len(claim)-64:]
 	}
-	secret := claim[len(claim)-64:]
-	if strings.Trim(secret, "0123456789abcdef") != "" {
-		return &Diff{"Mint", "secret", fmt.Sprintf("the last 64 characters are not a lower-case hex secret: %q", secret)}
+	if secret == "" || strings.Trim(secret, "0123456789abcdef") != "" {
+		// The handed-out text does not even end in a secret. Say what that means in
+		// the property's terms: can the other end import it at all?
+		st.RealCalls++
+		if _, err := security.ImportClaimSession(cacheB, claim, security.ClaimSessionOptions{PeerAddr: sinful}); err != nil {
+			return &Diff{"Import", "handed-out-claim", fmt.Sprintf("the claim id handed out by MintClaimSession cannot be imported (%v); it does not have the shape <sinful>#bday#seq#[info]secret: tail %q", err, tailOf(claim, 40))}
+		}
+		return &Diff{"Mint", "claim-text", fmt.Sprintf("the claim id does not end in the 64-character secret: tail %q", tailOf(claim, 40))}
 	}
 	expires := ""
 	if mm := reExpires.FindStringSubmatch(claim); mm != nil {
@@ -730,6 +738,13 @@ func (s snapshot) diff(t snapshot) (field, detail string) {
 	return "", ""
 }
 
+func tailOf(s string, n int) string {
+	if len(s) > n {
+		return s[len(s)-n:]
+	}
+	return s
+}
+
 func indexOf(s []string, t string) int {
 	for i, x := range s {
 		if x == t {
@@ -795,7 +810,7 @@ func Signature(sc *Scenario, v Variant, d *Diff) map[string]string {
 	cfg := sc.Trace[0].Cfg
 	sig := map[string]string{"spec": "ClaimSession", "action": d.Step, "field": d.Field}
 	switch d.Field {
-	case "claim-text", "session-id", "parse", "public-text", "public-leaks-secret":
+	case "claim-text", "session-id", "parse", "public-text", "public-leaks-secret", "present", "handed-out-claim":
 		sig["addr"] = cfg.Addr
 	}
 	if strings.HasPrefix(d.Step, "Connect") {
@@ -805,7 +820,7 @@ func Signature(sc *Scenario, v Variant, d *Diff) map[string]string {
 		sig["action"], sig["dir"], sig["command"] = p[0], p[1], p[2]
 	}
 	// minting, leases and what a connection does to the entries do not depend on what the importer holds
-	if d.Step != "Mint" && d.Field != "lease" && !strings.HasPrefix(d.Field, "after-") {
+	if d.Step != "Mint" && d.Field != "lease" && d.Field != "handed-out-claim" && !strings.HasPrefix(d.Field, "after-") {
 		sig["secret"] = sc.Trace[0].Rel
 		if sc.Trace[0].Rel == "diff" {
 			sig["corruption"] = v.Sub
